@@ -411,10 +411,28 @@ def validate_trace(module, cfg, trace_path, *, name, timeout=1800, max_divergent
 # --------------------------------------------------------------------------- findings / evidence / reporting
 
 def known_findings():
-    p = os.path.join(VERIF, "known_findings.json")
-    if not os.path.exists(p):
-        return {"findings": [], "fixed": []}
-    return json.load(open(p))
+    """known_findings.json plus fragments known_findings.d/*.json (same shape)."""
+    import glob
+    res = {"findings": [], "fixed": []}
+    paths = [os.path.join(VERIF, "known_findings.json")] + sorted(glob.glob(os.path.join(VERIF, "known_findings.d", "*.json")))
+    for p in paths:
+        if os.path.exists(p):
+            d = json.load(open(p))
+            res["findings"] += d.get("findings", [])
+            res["fixed"] += d.get("fixed", [])
+    return res
+
+
+def repo_lock(exclusive=False):
+    """Checks hold a shared lock on /repo while they build and run; tools/mutate.sh takes it exclusively
+    while a temporary mutation is applied, so that no check ever builds a half-mutated tree."""
+    import fcntl
+    if os.environ.get("VERIF_NOLOCK"):
+        return None
+    os.makedirs(WORK, exist_ok=True)
+    f = open(os.path.join(WORK, "repo.lock"), "w")
+    fcntl.flock(f, fcntl.LOCK_EX if exclusive else fcntl.LOCK_SH)
+    return f
 
 
 def save_replay(prop, label, lines_or_obj):
@@ -552,6 +570,7 @@ def main_wrapper(fn, prop):
     ap.add_argument("--replay", default=None)
     a = ap.parse_args(sys.argv[2:])
     rep = Report(prop, a.tier)
+    _lock = repo_lock()
     try:
         fn(rep, a.tier, a)
         rc = rep.finish()
